@@ -251,6 +251,13 @@ Definition C01_ok_env (env : bool) (cfg : config) (nref npeer : nat) (rs : list 
 
 Definition C01_ok : config -> nat -> nat -> list rnd -> bool * list event -> bool := C01_ok_env true.
 
+(* "In every synchronization round exactly one correction is handed to the clock discipline ... whatever offsets,
+   errors or delays reference clocks and peers produce": a round's measurement ends at its deadline, so the
+   correction of a round is handed on no later than SyncTimeout after the round began (the model has no clock: this
+   clause is judged on the virtual time the harness observes between the beginning of a round and its Do) *)
+Definition C01_deadline_ok (timeout : Z) (dts : list Z) : bool :=
+  forallb (fun dt => (0 <=? dt) && (dt <=? Z.max 0 timeout)) dts.
+
 (* clk.Drift for the real SystemClock: configured drift x interval, up to the
    rounding of the float64 computation (6 roundings, one truncation) *)
 Definition C01_drift_ok (drift_ns interval D : Z) : bool :=
